@@ -102,6 +102,20 @@ def main():
             cases.append({'kind': 'valid', 'name': name, 'text': text})
         else:
             cases.append({'kind': 'invalid', 'name': name, 'cls': 'undefined-interfaced-item', 'detail': 'name-before-rename', 'planted': 'widget', 'text': text})
+    # which attribute names an entity may mention (declared in it or a supertype - not in a subtype, a sibling or an unrelated entity)
+    for name, text, ok, planted in gfam.visibility_family():
+        if ok is None:
+            cases.append({'kind': 'unjudged', 'name': name, 'cls': 'implicit-downcast', 'detail': name, 'text': text})
+        elif ok:
+            cases.append({'kind': 'valid', 'name': name, 'text': text})
+        else:
+            cases.append({'kind': 'invalid', 'name': 'visibility', 'cls': 'attribute-not-visible:' + name.rsplit('_', 1)[1], 'detail': name, 'planted': planted, 'text': text})
+    # one item along two interface paths (legal) / two items under one name (duplicate)
+    for name, text, ok in gfam.interface_paths():
+        if ok:
+            cases.append({'kind': 'valid', 'name': name, 'text': text})
+        else:
+            cases.append({'kind': 'invalid', 'name': 'interface-paths', 'cls': 'interfaced-name-clash', 'detail': name, 'planted': 'p', 'text': text})
     # one schema per parametrised diagnostic of the front end (group reference of a non-entity, circular type definition, missing INCLUDE ...)
     for c in gfam.diagnostic_catalogue():
         if c['cls'] == 'always-true-branch':
